@@ -49,7 +49,7 @@ class FieldsModel(Model):
 
     def __init__(self, name, S, fields, fused_reads=()):
         self.name, self.fields = name, fields
-        self.fused_reads = set(fused_reads)
+        self.fused_reads = fused_reads if isinstance(fused_reads, dict) else set(fused_reads)
         for f, (ty, init) in fields.items():
             if isinstance(ty, tuple) and ty[0] == "ref":
                 S.declare(f"{name}.{f}?", "bool", init)
@@ -69,9 +69,14 @@ class FieldsModel(Model):
             return ("rec", f"Ref:{ty[1]}", {"?": "bool"})
         return ty
 
-    def fused(self, method):
+    def fused(self, method, t=None):
         k, _, f = method.partition(":")
-        return k == "get" and f in self.fused_reads
+        if k != "get":
+            return False
+        if isinstance(self.fused_reads, dict):
+            pred = self.fused_reads.get(f)
+            return bool(pred and (pred is True or (t is not None and pred(t))))
+        return f in self.fused_reads
 
     def outcomes(self, method, args, kwargs, t, S):
         k, _, f = method.partition(":")
@@ -111,6 +116,7 @@ class DictModel(Model):
         self.name, self.n, self.value_cls = name, n, value_cls
         self.m = f"{name}.m"
         S.declare(self.m, W, init)  # only the low n bits are used
+        S.domain.append(z3.ULT(S[self.m], BV(1 << n)) if n < W else z3.BoolVal(True))
         self.hooks = {}
 
     def result_type(self, method):
@@ -172,6 +178,7 @@ class ListModel(Model):
     def __init__(self, name, S, n, init=0):
         self.name, self.n, self.m = name, n, f"{name}.m"
         S.declare(self.m, W, init)
+        S.domain.append(z3.ULT(S[self.m], BV(1 << n)) if n < W else z3.BoolVal(True))
         S.declare(f"{name}.dup", "bool", False)
 
     def result_type(self, method):
@@ -249,7 +256,7 @@ class FutureTable(Model):
             S.declare(f"{name}.st.{i}", W, None if init_states is None else init_states[i])
             S.declare(f"{name}.res.{i}", W, 0)
             S.declare(f"{name}.sets.{i}", W, 0)  # ghost: how many times a result/exception was set
-        S.declare(f"{name}.next", W, 0)
+        S.declare(f"{name}.next", W, None)
 
     def result_type(self, method):
         return {"alloc": ("rec", "Future", {"i": "int"}), "set_running_or_notify_cancel": "bool", "cancel": "bool",
